@@ -53,7 +53,8 @@ def lock_spec(prop, tier):
     if prop == "C02":
         if q:
             return (lr(merge(fam("p1", "p2x1", "conv2"), fam("prep2", locks=OPT)), -1)
-                    + lr(fam("p2x2", "p3x1"), 2))
+                    + lr(fam("p2x2", "p3x1"), 2)
+                    + lr(fam("p1"), 1, dev=1))
         return (lr(merge(fam("p1", "p2x1", "conv2", "p2x2", "twolocks"), fam("prep2", "opt2", locks=OPT)), -1, **T)
                 + lr(merge(fam("p3x1", "conv3", "p2x3"), fam("warm2", locks=MCS)), 3, **T)
                 + lr(fam("p4x1", locks=MCS), 2, **T)
@@ -95,11 +96,13 @@ def lock_spec(prop, tier):
                 + lr(fam("p2x1", "p3x1", locks=MCS), 2, dev=1, **T))
     if prop == "C03":
         if q:
-            return lr(fam("opt1", "opt2", "republish", locks=OPT), -1) + lr(fam("opt2x2", locks=OPT), 2)
+            return (lr(fam("opt1", "opt2", "republish", locks=OPT), -1) + lr(fam("opt2x2", locks=OPT), 2)
+                    + lr(fam("opt1", locks=OPT), 2, dev=1) + lr(fam("opt2", locks=OPT), 2, dev=1))
         return (lr(fam("opt1", "opt2", "republish", "opt2x2", locks=OPT), -1, **T)
                 + lr(fam("opt3", locks=OPT), 4, **T)
                 + lr(fam("opt2", "republish", "opt2x2", locks=OPT), -1, retry=1, **T)
-                + lr(fam("opt2", "republish", locks=OPT), 3, dev=1, **T))
+                + lr(fam("opt2", "republish", locks=OPT), 3, dev=1, **T)
+                + lr(fam("opt2", "republish", locks=OPT), -1, retry=2, **T))
     if prop == "C09":
         if q:
             return lr(fam("opt1", "ver2", locks=OPT), -1)
@@ -110,13 +113,15 @@ def lock_spec(prop, tier):
     if prop == "C13":
         if q:
             return (lr(fam("opt1", "prep2", locks=OPT), -1)
-                    + lr(fam("prep2", locks=OPT), -1, retry=1))
+                    + lr(fam("prep2", locks=OPT), -1, retry=1)
+                    + lr(fam("opt1", locks=OPT), 2, dev=1))
         return (lr(fam("opt1", "prep2", locks=OPT), -1, **T)
                 + lr(fam("prep3", locks=OPT), 4, **T)
                 + lr(fam("prep4", locks=OPT), 3, **T)
                 + lr(fam("prep2", locks=OPT), -1, retry=1, **T)
                 + lr(fam("prep3", locks=OPT), 3, retry=1, **T)
-                + lr(fam("prep2", locks=OPT), 3, dev=1, **T))
+                + lr(fam("prep2", locks=OPT), 3, dev=1, **T)
+                + lr(fam("prep2", locks=OPT), -1, retry=2, **T))
     return None
 
 
@@ -172,7 +177,7 @@ def epoch_spec(prop, tier):
     if prop == "C16":
         if q:
             return [ep(1, ("obs", "pin1", "moves"), -1), ep(2, ("obs", "moves"), 2),
-                    ep(2, (), 0, 60, 30, ("--histories", "5"), "sequential histories depth 5")]
+                    ep(2, (), 0, 60, 30, ("--histories", "6"), "sequential histories depth 6")]
         return [ep(1, ("obs", "pin1", "moves", "list1"), -1, 600, 600), ep(2, ("obs", "pin1", "pin2", "moves"), 4, 900, 900),
                 ep(2, (), 0, 600, 120, ("--histories", "8"), "sequential histories depth 8")]
     if prop == "C17":
@@ -181,7 +186,7 @@ def epoch_spec(prop, tier):
         return [ep(1, ("list1",), -1, 600, 600), ep(2, ("list1",), -1, 900, 900), ep(2, ("list2", "public"), 3, 900, 900)]
     if prop == "C20":
         if q:
-            return [ep(2, (), 0, 80, 30, ("--histories", "6"), "sequential histories depth 6"), ep(2, ("list1", "recreate"), 1)]
+            return [ep(2, (), 0, 80, 30, ("--histories", "7"), "sequential histories depth 7"), ep(2, ("list1", "recreate"), 2)]
         return [ep(2, (), 0, 900, 120, ("--histories", "10"), "sequential histories depth 10"),
                 ep(1, (), 0, 600, 120, ("--histories", "12"), "sequential histories depth 12 (1 worker)"),
                 ep(2, ("list1", "list2", "recreate"), 3, 600, 300)]
